@@ -13,8 +13,13 @@ def make(dim="spatial_1D", conf="shelf", height=0.05, diameter=0.05, K=100.0, pr
     oc = impl.opcond_mod()
     over = {"snowing_parameters": {"dimensionality": dim, "configuration": conf},
             "vial": {"geometry": {"height": height, "diameter": diameter}}}
-    for k, v in (extra or {}).items():
-        over.setdefault(k, {}).update(v)
+    def deep(d, u):
+        for k, v in u.items():
+            if isinstance(v, dict):
+                deep(d.setdefault(k, {}), v)
+            else:
+                d[k] = v
+    deep(over, extra or {})
     prog = prog or dict(start=20, end=-50, rate=1.0 / 60, holds=[], t_tot=4 * 3600.0, dt=1.0)
     op = gen_opcond.build(prog, oc, cnTemp=cnTemp)
     S = sn.Snowing(k={"int": 0, "ext": 0, "s0": K, "s_sigma_rel": 0}, opcond=op, Nrep=Nrep, configPath=impl.cfg_path(over))
